@@ -113,6 +113,22 @@ theorem superclass_found (fuel : Nat) (tbl : Methods) (g : Inh) (bc : List Str) 
     getMethodT (fuel + 1) tbl g bc frame cls method isPrivate = some (methodKey pf pc method isPrivate) := by
   simp [getMethodT, hself, walk, hg, walkParents, hp, ordinaryKey]
 
+/-- class methods: the own definition wins, and a direct superclass's class method is found -/
+theorem class_method_direct_wins (fuel : Nat) (tbl : Methods) (g : Inh) (bc : List Str) (frame cls method : Str) (isPrivate : Bool)
+    (h : has tbl (classMethodKey frame cls method isPrivate) = true) :
+    getClassMethodT fuel tbl g bc frame cls method isPrivate = some (classMethodKey frame cls method isPrivate) := by
+  simp [getClassMethodT, h]
+
+theorem class_method_superclass_found (fuel : Nat) (tbl : Methods) (g : Inh) (bc : List Str) (frame cls method : Str) (isPrivate : Bool)
+    (pf pc : Str) (rest : List Node)
+    (hself : has tbl (classMethodKey frame cls method isPrivate) = false)
+    (hb : has tbl (classMethodKey "Builtin".toList cls method isPrivate) = false)
+    (hg : parentsOf g frame cls = { frame := pf, cls := pc } :: rest)
+    (hp : has tbl (classMethodKey pf pc method isPrivate) = true) :
+    getClassMethodT (fuel + 1) tbl g bc frame cls method isPrivate = some (classMethodKey pf pc method isPrivate) := by
+  have hb' : has tbl (classMethodKey ['B', 'u', 'i', 'l', 't', 'i', 'n'] cls method isPrivate) = false := hb
+  simp [getClassMethodT, hself, hb', walk, hg, walkParents, hp, ordinaryKey]
+
 /-- an included module's method is found for instance lookups -/
 theorem include_found (fuel : Nat) (tbl : Methods) (g : Inh) (bc : List Str) (frame cls method : Str) (isPrivate : Bool)
     (mf mc : Str) (rest : List Node)
